@@ -51,7 +51,7 @@ def run(tier, seed):
     T = tier == "thorough"
     o.rule = ("decode: every string of up to %d symbols over {\\n, a, é (2 bytes), {} with every partition into read chunks (all cut sets when <= %d, random beyond), and real JSON-RPC "
               "message streams under random partitions down to 1-byte reads; encode: message lists; driver: the real Builder/PluginDriver in-process on duplex pipes of capacity 1..64 bytes, "
-              "1-8 concurrent hook requests (numeric and string ids, UTF-8 in ids and params), request stream written in adversarial chunks, handlers released in every/random completion order, or 6-15 of them finishing in one burst, "
+              "1-8 concurrent hook requests (numeric and string ids, UTF-8 in ids and params), request stream written in adversarial chunks (a third of the scenarios: getmanifest, init and the requests as ONE chunked stream, not waiting for the init reply), handlers released in every/random completion order, or 6-15 of them finishing in one burst, "
               "a failing handler, interleaved notifications; and scenarios with the plugin's real log writer sharing the output (handlers emit log lines of 10-3000 bytes), replies of up to 20 kB, "
               "and a node that stops reading the plugin's output while further requests arrive (busy writer, back-pressure), one process per scenario. Non-trivial: at least one complete frame (decode) / at least two requests (driver); distinct = distinct chunk list or scenario") % (6 if T else 5, 64 if T else 16)
     o.assumptions = ["serde_json never emits a raw newline; FramedWrite::send under the output mutex writes message and separator together; tokio's scheduling of handler tasks: exercised, not proved",
@@ -97,6 +97,12 @@ def run(tier, seed):
                 # (more completions at once than the reply channel holds)
                 order = order[:r.below(3)]
             dcases.append({"cap": r.choice([1, 2, 3, 5, 7, 16, 64]), "requests": reqs, "chunks": [r.choice([1, 2, 3, 5, 8, 13, 100]) for _ in range(5)], "complete_order": order, "_n": n})
+            if k % 3 == 1:
+                # the node does not wait for the init reply: handshake and requests are one chunked stream (a read of the
+                # handshake may end inside or after the first requests); every other one of these arrives in a single write
+                dcases[-1]["pipeline"] = True
+                if k % 6 == 1: dcases[-1]["cap"] = 65536; dcases[-1]["chunks"] = [1000000]
+                else: dcases[-1]["cap"] = r.choice([7, 64, 4096])
         # ---- driver with the REAL log writer sharing the output, and a node that stops reading for a while (busy writer / back-pressure)
         lcases = []
         for k in range(96 if T else 32):
